@@ -206,6 +206,9 @@ type hWorld struct {
 
 	Funcs []*Func // built functions, index = spec ID
 
+	// provFinding: classification (known-finding id) attached to provenance violations
+	provFinding string
+
 	// NilPtrOnFail: a failing *struct-form function returns a nil pointer next to its error
 	NilPtrOnFail bool
 
